@@ -1,4 +1,5 @@
 import CircBuf.Lemmas.Tie.IterTie
+import CircBuf.Lemmas.Tie.IterSpec
 import CircBuf.Props.C08
 /-!
 # C08 — stepping an iterator: `C08_next`, `C08_next_back`, `C08_len` restated about the *translated source*
@@ -31,7 +32,9 @@ maybe theorem C08_over_range_mut_src (sb eb : Bound) (s : Sys) (h : Inv s.buf) (
     (hs : sb.startNat ≤ eb.endNat s.buf.size) :
     ∃ it, Gen.IterMut_over_range sb eb s = (.ok it, s) ∧
       it.remaining = rangeSlots s.buf.start s.buf.cap sb.startNat (eb.endNat s.buf.size) := by
-  rw [tie_itermut_over_range sb eb s h]; exact C08_over_range sb eb s h hsb heb he hs
+  first
+  | (rw [tie_itermut_over_range sb eb s h]; exact C08_over_range sb eb s h hsb heb he hs)
+  | (overRangeEval Gen.IterMut_over_range tie_itermut_new spec_itermut_advance_front_by spec_itermut_advance_back_by tie_itermut_empty)
 
 maybe theorem C08_whole_mut_src (s : Sys) (h : Inv s.buf) :
     ∃ it, Gen.IterMut_new s = (.ok it, s) ∧
